@@ -45,11 +45,15 @@ func (s *subscriptionsState) mergeSubscriptions(subscriptions []*api.Subscriptio
 }
 
 func (s *subscriptionsState) dump(event *api.StateBroadcastEvent) {
-	subscriptions := s.All()
-	for _, subscription := range subscriptions {
-		subscription := subscription
-		event.Subscriptions = append(event.Subscriptions, &subscription)
-	}
+	s.mu.Lock()
+	defer s.mu.Unlock()
+	// removed subscriptions are part of the state: a peer that missed the removal learns it from the snapshot
+	s.subscriptions.Iterate(func(b []byte) {
+		local := &api.SubscriptionList{}
+		if proto.Unmarshal(b, local) == nil {
+			event.Subscriptions = append(event.Subscriptions, local.Subscriptions...)
+		}
+	})
 }
 
 func (s *subscriptionsState) Create(sessionID string, pattern []byte, qos int32) error {
